@@ -35,6 +35,15 @@ def gen(rng, n, tier):
             k = rng.randrange(1, nb)
             for j in range(k, nb):
                 bins[j] = [bins[j][0] + Fr(1, 2 ** 40), bins[j][1] + Fr(1, 2 ** 40)]
+        fixed_args = "none"
+        if rng.random() < 0.08:
+            # a fixed-width binning with a decimal width (0.1, 0.3, 0.7 ...): the case records the edges physt computes, the values are
+            # those edges, their neighbours and decimal literals - an index computed as int((v - first) / width) goes wrong here
+            from physt.binnings import FixedWidthBinning
+            w_ = rng.choice([0.1, 0.3, 0.7, 0.05, 0.6, 0.2]); nb = rng.randint(3, 12); st_ = round(rng.randint(-20, 20) * w_, 10)
+            fb_ = FixedWidthBinning(bin_width=w_, bin_count=nb, min=st_)
+            bins = [[Fr(float(a)), Fr(float(b))] for a, b in fb_.bins]
+            fixed_args = [Fr(w_), nb, Fr(st_)]; style = "decimalfixed"
         consecutive = all(bins[j][1] == bins[j + 1][0] for j in range(nb - 1))
         regular = consecutive and len({b[1] - b[0] for b in bins}) == 1
         # how the bins are handed over
@@ -42,8 +51,10 @@ def gen(rng, n, tier):
         if consecutive: forms += ["edges", "edges", "list", "binning-numpy"]
         if regular: forms += ["binning-fixed"]
         form = rng.choice(forms)
+        if fixed_args != "none": form = "binning-fixedw"
         malformed = "none"
         r = rng.random()
+        if fixed_args != "none": r = 1.0
         if r < 0.04 and nb > 1:
             malformed = "unsorted"; j = rng.randrange(nb - 1); bins[j], bins[j + 1] = bins[j + 1], bins[j]; form = "pairs"
         elif r < 0.07 and nb > 1:
@@ -103,7 +114,7 @@ def gen(rng, n, tier):
         layout = "F" if len(shape) > 1 and rng.random() < 0.4 else "C"      # memory order of the data array only
         named = "T" if rng.random() < 0.15 else "F"                         # the (name, data) form of a pandas groupby item
         yield [["bucket", "%s/%s/%s/w%s" % (style, form.split("-")[0], malformed, wkind)], ["data", data], ["shape", shape], ["incl", incl],
-               ["layout", layout], ["named", named], ["spread", spread], ["sliced", "T" if (malformed == "none" and rng.random() < 0.5) else "F"],
+               ["layout", layout], ["named", named], ["spread", spread], ["sliced", "T" if (malformed == "none" and rng.random() < 0.5) else "F"], ["fixed_args", fixed_args],
                ["wkind", wkind], ["weights", weights], ["wshape_ok", wshape_ok], ["bins", bins], ["form", form],
                ["dtype", dtype], ["keep_missed", keep], ["dropna", dropna]]
 
@@ -128,6 +139,9 @@ def impl(case):
         if form == "pairs": bins = np.array(pairs)
         elif form == "edges": bins = np.array([pairs[0][0]] + [p[1] for p in pairs])
         elif form == "list": bins = [pairs[0][0]] + [p[1] for p in pairs]
+        elif form == "binning-fixedw":
+            from physt.binnings import FixedWidthBinning
+            fa = d["fixed_args"]; bins = FixedWidthBinning(bin_width=float(fa[0]), bin_count=int(fa[1]), min=float(fa[2]))
         else: bins = C.mk_binning(d["bins"], form.split("-")[1], d["incl"] == "T")
         if form == "binning-static" and d.get("sliced", "F") == "T":
             # the same bins obtained as a selection from a larger binning whose representations were looked at (and cached) before
